@@ -231,20 +231,38 @@ func (e *CliEnv) Close() {
 		return
 	}
 	e.mu.Lock()
-	e.closing = true
+	gated := e.gateOn
 	e.mu.Unlock()
-	// free a loop goroutine waiting at a gate
-	for i := 0; i < 2; i++ {
+	held := false // the loop is parked at the end of an iteration, waiting for goDone
+	if gated {
+		// A gated loop is asleep or parked before its next iteration. An iteration that has passed its
+		// first trace point cannot be taken back: it is completed as an observed iteration, and the
+		// loop is kept parked at its end until the stop has been signalled, so that it does no
+		// unobserved work while the client closes.
 		select {
 		case <-e.atRead:
 			e.goRead <- struct{}{}
+			select {
+			case <-e.atDone:
+				e.T.Emit(J{"a": "LoopDone", "hist": e.Hist()})
+				held = true
+			case <-time.After(5 * time.Second):
+			}
 		case <-e.atDone:
-			e.goDone <- struct{}{}
-		case <-time.After(100 * time.Millisecond):
+			held = true
+		case <-time.After(500 * time.Millisecond):
 		}
 	}
 	done := make(chan struct{})
 	go func() { e.C.Close(); close(done) }()
+	// Close signals the stop at once and then waits for the goroutines
+	time.Sleep(20 * time.Millisecond)
+	e.mu.Lock()
+	e.closing = true
+	e.mu.Unlock()
+	if held {
+		e.goDone <- struct{}{}
+	}
 	for {
 		select {
 		case <-done:
